@@ -11,7 +11,7 @@ pub struct Witness {
 }
 
 fn var(name: &str, ty: Ty, pol: Pol, init: Option<usize>, at: Option<Addr>, block: &'static str) -> Var {
-    Var { name: name.into(), ty, pol, init, at, block }
+    Var { name: name.into(), ty, pol, init, at, block, init_expr: None }
 }
 
 fn prog(inst: &str, ty_name: &str, vars: Vec<Var>, externals: Vec<usize>, body: Vec<Stmt>) -> Prog {
